@@ -20,6 +20,9 @@
 (*       "Code"  code block (text is the body, no links)                   *)
 (*       "Meta"  front matter (only as the first block; text is its value) *)
 (*       "QH" / "QP"  heading (level lvl) / paragraph inside a block quote *)
+(*       "QRef"  a block reference inside a block quote                    *)
+(*       "IRef"  a list item whose second paragraph is a block reference   *)
+(*               (neither is an inclusion by a heading: see Includes)       *)
 (* Link  == [url : Url, kind, text, ext]                                   *)
 (*   kind = "inline" | "wiki" | "piped" | "auto";  ext = TRUE for external *)
 (*   urls (http:, HTTPS:, mailto:), whose url.segs holds the whole url     *)
